@@ -29,6 +29,24 @@ def to_trace(sc, evs):
     return {"beh": MODEL_BEH.get(sc["beh"], "obeysTerm") if not sc["beh"].startswith("unstartable") else "unstartable", "path": sc["path"], "ev": out}
 
 
+def reap_orphans():
+    """children of scenarios that hung (and were killed by the watchdog) live in their own sessions:
+    whatever is left of them must not outlive the check"""
+    import signal
+    n = 0
+    for pid in os.listdir("/proc"):
+        if not pid.isdigit():
+            continue
+        try:
+            cmd = open("/proc/%s/cmdline" % pid, "rb").read().decode("utf-8", "replace")
+            if ld.CHILD in cmd.replace("\0", " "):
+                os.kill(int(pid), signal.SIGKILL)
+                n += 1
+        except (OSError, ValueError):
+            continue
+    return n
+
+
 def check_c16(ctx):
     quick = ctx.tier == "quick"
     ctx.cov["rule"] = ("cases = (child behaviour, exit path, moment): 11 behaviours (well-behaved, exits at step 0/1/2, ignores SIGTERM after signalling readiness, never reads stdin, floods stdout, "
@@ -48,6 +66,7 @@ def check_c16(ctx):
     reps = 1 if quick else 3
     scen = scen * reps
     res_evs = par.pmap(_run, scen, jobs=16, chunksize=1)
+    ctx.cov["orphans_reaped_after_run"] = reap_orphans()
     errs = [e for e in res_evs if isinstance(e, dict)]
     if errs:
         raise Machinery("lifecycle driver failed: %s" % errs[0]["error"])
